@@ -11,7 +11,10 @@ C12_WIDE = ["pair_u128", "pair_i128"]
 
 PROPS = {
     "C09": {
-        "verus": ["c09_staging"],
+        # c10_writebehind: read-your-writes rests on "an entry is un-pinned / a staging log is trimmed only AFTER the batch that wrote
+        # it is committed" -- that order is the commit kernel's invariant (the open physical batch holds exactly the logical
+        # batches whose notification is still pending), so the kernel is re-verified here
+        "verus": ["c09_staging", "c10_writebehind"],
         "kani": [],
         "native": [
             {"name": "cached_maps_read_your_writes", "bin": "replay_c09", "crate": "replay", "tiers": ("quick", "thorough"),
